@@ -77,7 +77,23 @@ ISOTOPE_LEVEL = ('neutron', 'neutron_activation')
 
 FORMULA_STRINGS = ('H2O', 'CaCO3+6H2O', 'D2O', 'O[18]H2', 'Fe{2+}Fe{3+}2O{2-}4', 'NaCl@2.16',
                    '(CH3)3CO[18]H', '5 g NaCl // 50 mL H2O@1', 'H[1]{+}2O{2-}',
-                   '3 wt% NaCl@2.16 // H2O@1', 'Fe', 'aa:AGK', 'dna:ACGT')
+                   '3 wt% NaCl@2.16 // H2O@1', 'Fe', 'aa:AGK', 'dna:ACGT',
+                   # "<string>|<keyword>=<value>": the string parsed with that keyword as well
+                   'aa:GGK|density=1.3', 'rna:ACGU|natural_density=1.5', 'H2O[18]|natural_density=1.0',
+                   'CaCO3+6H2O|density=1.77')
+
+
+def formula_call(k, tb=None):
+    """formula(FORMULA_STRINGS[k][, keyword][, table=tb])."""
+    import periodictable as pt
+    text, kw = FORMULA_STRINGS[k], {}
+    if '|' in text:
+        text, rest = text.split('|', 1)
+        name, value = rest.split('=')
+        kw[name] = float(value)
+    if tb is not None:
+        kw['table'] = tb
+    return pt.formula(text, **kw)
 
 NFIELDS = ('b_c', 'b_c_i', 'b_c_complex', 'bp', 'bp_i', 'bm', 'bm_i', 'coherent', 'incoherent', 'total',
            'absorption', 'abundance', 'is_energy_dependent', 'nsf_table', '_number_density')
@@ -565,6 +581,7 @@ def all_event_names():
         ev += ['digest:%s:%s' % (T, g) for g in GROUPS]
         ev += ['mut:%s:%s:%s' % (T, g, v) for g in MUTATIONS for v in MUTATIONS[g]]
         ev += ['parse:%s:%d' % (T, k) for k in range(len(FORMULA_STRINGS))]
+        ev += ['parse0:%s:%d' % (T, k) for k in range(len(FORMULA_STRINGS))]
         ev += ['mix:%s:weight' % T, 'mix:%s:volume' % T]
         ev += ['pickle:%s:%s' % (T, k) for k in PICKLE_KINDS]
     return ev
@@ -943,6 +960,8 @@ class Env(object):
                 all(q in have for q in DIGEST_PREREQ.get(p[2], ()) if p[2] in ('neutron', 'activation'))
         if k in ('parse', 'mix'):
             return 'mass' in have and 'density' in have
+        if k == 'parse0':
+            return 'mass' not in have
         if k == 'pickle':
             return p[2] in ('el', 'ion') or 'mass' in have
         return False
@@ -1205,7 +1224,7 @@ class Env(object):
         tb = pt.elements if T is None else self.tables[T]
         if f is None:
             try:
-                f = pt.formula(FORMULA_STRINGS[what], table=tb)
+                f = formula_call(what, tb)
             except Exception:
                 return
         self.counts['formula_atom_checks'] += 1
@@ -1227,7 +1246,7 @@ class Env(object):
         import periodictable as pt
         T, k = p[1], int(p[2])
         try:
-            f = pt.formula(FORMULA_STRINGS[k], table=self.tables[T])
+            f = formula_call(k, self.tables[T])
         except Exception as exc:
             self.violation('private-fresh', 'b', T, '-',
                            'formula(%r, table=%s) raised %s: %s' % (FORMULA_STRINGS[k], T, type(exc).__name__, str(exc)[:100]),
@@ -1244,6 +1263,18 @@ class Env(object):
             self.violation('private-fresh', 'b', T, 'mass',
                            'formula(%r, table=%s) -> %s, public canonical %s' % (FORMULA_STRINGS[k], T, short(got, 60), short(ref, 60)),
                            symptom=value_kind(got), entries=[('parse:%d' % k, 'value', got, ref)])
+
+    def _ev_parse0(self, p, pend):
+        """formula(s, table=T) while T has no isotopes yet (mass.init(T) has not run): the call may raise,
+        but a formula that comes back must hold T's atoms only."""
+        T, k = p[1], int(p[2])
+        try:
+            f = formula_call(k, self.tables[T])
+        except Exception:
+            self.counts['bare_table_parse.raised'] += 1
+            return
+        self.counts['bare_table_parse.returned'] += 1
+        self._check_formula_atoms(T, k, T, f)
 
     def _ev_mix(self, p, pend):
         import periodictable as pt
@@ -1390,7 +1421,7 @@ def _formula_value(f, with_mass=True):
 def _parse_value(tb, k):
     import periodictable as pt
     from periodictable import core
-    f = pt.formula(FORMULA_STRINGS[k]) if tb is None else pt.formula(FORMULA_STRINGS[k], table=tb)
+    f = formula_call(k, tb)
     # the atoms must be the objects of the table that was asked for (the public one when none is given),
     # whatever was parsed with another table before
     home = pt.elements if tb is None else tb
@@ -1690,6 +1721,9 @@ def systematic_histories(thorough=False):
     for k in range(len(FORMULA_STRINGS)):
         out.append(('parse-after-public-parse:%d' % k, base + ['pub.parse:%d' % k, 'parse:T1:%d' % k]))
         out.append(('parse-before-public-parse:%d' % k, base + ['parse:T1:%d' % k, 'pub.parse:%d' % k]))
+    for k in range(len(FORMULA_STRINGS)):
+        if FORMULA_STRINGS[k].split('|')[0] in ('H2O', 'Fe', 'NaCl@2.16', 'aa:AGK', 'dna:ACGT', 'aa:GGK', 'rna:ACGU'):
+            out.append(('parse-on-bare-table:%d' % k, ['new:T1', 'parse0:T1:%d' % k, 'pub.parse:%d' % k]))
     out.append(('two-table-parse', base + ['new:T2', 'init:T2:mass', 'init:T2:density', 'parse:T1:3', 'parse:T2:3', 'parse:T1:3', 'mix:T2:weight', 'mix:T1:volume']))
     for kind in PICKLE_KINDS:
         out.append(('pickle:%s' % kind, base + ['new:T2', 'init:T2:mass', 'pickle:T1:%s' % kind, 'pickle:T2:%s' % kind]))
